@@ -65,6 +65,9 @@ func c06Scenarios() []*core.Scenario {
 		{Name: "S11 after a reopen (sealed segment served by its on-disk index): GetLog(1) || GetLog(2), GetLog(3)", Cfg: seg,
 			Setup:   []core.Op{a(1, 0, 4), a(2, 0, 4), a(3, 0, 4), a(4, 0, 4), {K: "R"}},
 			Threads: []core.ThreadSpec{{Name: "reader1", Ops: []core.Op{{K: "GL", Idx: 1}}}, {Name: "reader2", Ops: []core.Op{{K: "GL", Idx: 2}, {K: "GL", Idx: 3}}}}},
+		{Name: "S12 two state transitions, the second removing the whole tail segment || GetLog(kept entries of an older sealed segment)", Cfg: seg,
+			Setup:   []core.Op{a(1, 0, 4), a(2, 0, 4), a(3, 0, 4), a(4, 0, 4), a(5, 0, 4)},
+			Threads: []core.ThreadSpec{{Name: "writer", Ops: []core.Op{{K: "D", Min: 1, Max: 1}, {K: "D", Min: 4, Max: 5}}}, {Name: "reader", Ops: []core.Op{{K: "GL", Idx: 2}, {K: "GL", Idx: 3}}}}},
 		{Name: "S6 head truncation inside the tail || GetLog(deleted), FirstIndex", Cfg: core.Config{SegSize: 4096},
 			Setup:   []core.Op{a(1, 0, 4), a(2, 0, 4), a(3, 0, 4)},
 			Threads: []core.ThreadSpec{{Name: "writer", Ops: []core.Op{{K: "D", Min: 1, Max: 2}, a(4, 0, 4)}}, {Name: "reader", Ops: []core.Op{{K: "GL", Idx: 1}, {K: "FI"}, {K: "GL", Idx: 4}}}}},
